@@ -303,7 +303,7 @@ impl Check for C10 {
     fn runs(&self, tier: Tier) -> u64 {
         match tier {
             Tier::Quick => 512 + 40_000,
-            Tier::Thorough => 512 + 2_000_000,
+            Tier::Thorough => 512 + 30_000_000,
         }
     }
     fn generate(&self, rng: &mut Rng, _tier: Tier, idx: u64) -> Scn {
